@@ -117,6 +117,13 @@ func genLookups(rng *h.Rng, a *Acct, t, d uint32, kvOK bool) {
 			l.H = Blake2b(blob)
 			l.Z = uint32(len(blob))
 			l.Slots = genSlots(rng, 1+rng.Intn(3), t, d)
+			dup := false
+			for _, o := range a.Look { // short blobs collide: the lookup map must not get the same key twice
+				dup = dup || (o.H == l.H && o.Z == l.Z)
+			}
+			if dup {
+				continue
+			}
 			a.Pre = append(a.Pre, PreE{H: l.H, Blob: blob})
 		} else {
 			l.H = randHash(rng)
